@@ -119,6 +119,20 @@ func c11Eval(c *run.Ctx, id string, ms refmodel.MatrixSpec, perm map[string]stri
 	for k, v := range perm {
 		mp[k] = v
 	}
+	// The decision itself is observed on a twin whose strings carry no tokens:
+	// on the token-bearing step an accepted-but-wrong permutation could still
+	// fail later for a token naming a dimension it lacks, hiding the acceptance.
+	plainStep := &pipeline.CommandStep{Command: "no tokens here", Label: "l", Key: "k", Matrix: step.Matrix}
+	var perr error
+	if pi := run.Guard(func() { perr = plainStep.InterpolateMatrixPermutation(mp) }); pi != nil {
+		c.Violation(id, map[string]any{"what": "panic: " + pi.Value, "matrix": ms, "permutation": perm, "stack": pi.Stack})
+		return
+	}
+	if (perr == nil) != want {
+		c.Violation(id, map[string]any{"what": fmt.Sprintf("permutation accepted=%v (err=%v) on a step without tokens, specification says %v (%s); matrix built via %s", perr == nil, perr, want, cat, how),
+			"matrix": ms, "permutation": perm})
+		return
+	}
 	var err error
 	if pi := run.Guard(func() { err = step.InterpolateMatrixPermutation(mp) }); pi != nil {
 		c.Violation(id, map[string]any{"what": "panic: " + pi.Value, "matrix": ms, "permutation": perm, "stack": pi.Stack})
@@ -197,13 +211,13 @@ func checkC11(c *run.Ctx) {
 	dimSets := [][]string{{""}, {"a"}, {"a", "b"}, {"a", "b", "c"}}
 
 	// all tuples over a dim list with values x,y,z
-	var tuples func(dims []string) []map[string]string
-	tuples = func(dims []string) []map[string]string {
+	var tuplesOver func(dims []string, vals []string) []map[string]string
+	tuplesOver = func(dims []string, vals []string) []map[string]string {
 		if len(dims) == 0 {
 			return []map[string]string{{}}
 		}
 		var out []map[string]string
-		for _, rest := range tuples(dims[1:]) {
+		for _, rest := range tuplesOver(dims[1:], vals) {
 			for _, v := range vals {
 				t := map[string]string{dims[0]: v}
 				for k, w := range rest {
@@ -214,6 +228,10 @@ func checkC11(c *run.Ctx) {
 		}
 		return out
 	}
+	tuples := func(dims []string) []map[string]string { return tuplesOver(dims, vals) }
+	// candidate permutations draw values from {x,y,z} and the empty string (a missing
+	// dimension reads as "" from a Go map, so "" is the value that could slip through)
+	permVals := []string{"x", "y", "z", ""}
 	// candidate permutations: all maps over subsets of dims ∪ {q}
 	perms := func(dims []string) []map[string]string {
 		all := append(append([]string{}, dims...), "q")
@@ -225,7 +243,7 @@ func checkC11(c *run.Ctx) {
 					sub = append(sub, d)
 				}
 			}
-			out = append(out, tuples(sub)...)
+			out = append(out, tuplesOver(sub, permVals)...)
 		}
 		return out
 	}
@@ -402,7 +420,10 @@ func checkC11(c *run.Ctx) {
 					delete(perm, dims[r.IntN(len(dims))])
 				case 1:
 					perm = randTuple()
-					perm["q"] = "x"
+					if r.IntN(2) == 0 {
+						delete(perm, dims[r.IntN(len(dims))]) // right arity, one real dimension swapped for an unknown one
+					}
+					perm["q"] = []string{"x", "", ""}[r.IntN(3)]
 				case 2:
 					if len(ms.Adjs) > 0 {
 						perm = map[string]string{}
